@@ -9,6 +9,7 @@ layout of untouched rows when the key is not first and keyless merges.
 import WrglModel.Model.Merge
 import WrglModel.Spec.Merge
 import WrglModel.Lemmas.C05
+import WrglModel.Lemmas.C05Cols
 namespace Wrgl
 
 /-- The decision chain of `tryResolve` on one column IS the three-way rule: unresolved iff two
@@ -66,6 +67,22 @@ theorem C05_conflict_reported (nCols : Nat) (br x y : Row) (i : Nat)
 theorem C05_disjoint_no_conflict (nCols : Nat) (br x : Row) (hl : br.length = nCols ∧ x.length = nCols) (n m : Nat) :
     mergeKey nCols (some br) (List.replicate n (some br) ++ [some x] ++ List.replicate m (some br)) = .row x :=
   mergeKey_single_change nCols br x hl n m
+
+/-- The by-name resolution used for column-changing branches (`resolveRecCols`, what the driver
+    compares the implementation with when branches add, remove or move columns) is the proved
+    same-columns resolution whenever every table has the base's column list. -/
+theorem C05_cols_model_extends_same (cols : Row) (hnd : cols.Nodup) (key : List Bytes) (b : Option Row) (os : List (Option Row))
+    (hb : ∀ r, b = some r → r.length = cols.length)
+    (hos : ∀ r, some r ∈ os → r.length = cols.length) :
+    resolveRecCols cols (List.replicate os.length cols) b os =
+      resolveRec cols.length (fun _ _ => false) (fun _ _ => false) { key := key, base := b, others := os } :=
+  resolveRecCols_same cols hnd key b os hb hos
+
+/-- non-vacuity, with a column added by one branch and removed by another: the added column keeps
+    its value, the removed one is dropped to the empty cell, no conflict -/
+example :
+    resolveRecCols [[1], [2]] [[[1], [2], [3]], [[1]]] (some [[7], [8]]) [some [[7], [8], [9]], some [[7]]]
+      = .resolved [[7], [], [9]] := by decide
 
 /-- non-vacuity -/
 example : TableOK 2 [0] [[[1], [2]], [[3], [4]]] := by
